@@ -343,9 +343,16 @@ def handle (op : String) (args : List String) : Option String := do
       let (g, r) ← parseBoxes k rest
       if !r.isEmpty then none
       let tris := marchGrid g 0.0
-      -- `March` (non-parallel path) panics when nothing at all was produced; the harness maps both to one token
-      if tris.isEmpty then pure "empty-or-panic"
+      -- no triangle at all: `March` returns the empty mesh (fix 0adf5e5; it used to panic on the sequential path)
+      if tris.isEmpty then pure "empty"
       else pure (toString tris.length ++ " " ++ " ".intercalate (tris.map intsStr))
+    | _ => none
+  -- empty below-threshold region ⇒ empty mesh
+  | "c09.holds.empty_surface" =>
+    match args with
+    | _nv :: nt :: _ => do
+      let nt ← nat? nt
+      pure (boolStr (nt == 0))
     | _ => none
   | "c09.holds.balanced" =>
     match args with
